@@ -160,7 +160,7 @@ fn check_inner(c: &Case, rep: &mut Rep) -> Result<(), String> {
         ensure!(r.starts_with("ok:"), "open failed: {}", r);
         let parsed_before_stream = c.wait_parsed || schedule.is_none();
         if parsed_before_stream {
-            ensure!(s.c.wait_for(Duration::from_secs(8), &|log| log.iter().any(|f| matches!(f, Frame::FileInfo(n) if *n as usize >= total))), "file never reported as parsed ({} of {} messages)", s.c.last_file_info().unwrap_or(0), total);
+            ensure!(s.c.wait_for(Duration::from_secs(15), &|log| log.iter().any(|f| matches!(f, Frame::FileInfo(n) if *n as usize >= total))), "file never reported as parsed ({} of {} messages)", s.c.last_file_info().unwrap_or(0), total);
         }
         if c.pause_resume {
             let r = s.cmd("pause")?;
@@ -187,7 +187,7 @@ fn check_inner(c: &Case, rep: &mut Rep) -> Result<(), String> {
             let binary = c.binary;
             let is_query = c.is_query;
             // wait until everything expected arrived (and for queries the end marker)
-            s.c.wait_for(Duration::from_secs(8), &|log| {
+            s.c.wait_for(Duration::from_secs(15), &|log| {
                 let mut cnt = 0;
                 let mut ended = false;
                 for f in log {
@@ -261,7 +261,7 @@ fn check_inner(c: &Case, rep: &mut Rep) -> Result<(), String> {
         let complete = !c.is_query || parsed_before_stream;
         verify(&mut s, id, w0, "initial window", complete)?;
         // make sure everything is parsed before the rest
-        ensure!(s.c.wait_for(Duration::from_secs(8), &|log| log.iter().any(|f| matches!(f, Frame::FileInfo(n) if *n as usize >= total))), "file never reported as parsed");
+        ensure!(s.c.wait_for(Duration::from_secs(15), &|log| log.iter().any(|f| matches!(f, Frame::FileInfo(n) if *n as usize >= total))), "file never reported as parsed");
         ensure!(s.parsed_all(total), "harness");
         if !c.is_query {
             // stream keeps following: after parsing finished the initial window must be complete as well
